@@ -26,6 +26,30 @@ def _run(prog: Program, rep: Report, tier: str) -> None:
     semiring_laws.run_laws(prog, rep, thorough=(tier == 'thorough'))
     wrappers.check_wrappers(prog, rep, 'C08-L9 representation-agreement', only_semiring_used=True)
     wrappers.check_binary(prog, rep, 'C08-L9 representation-agreement (pattern-aware binary ops)')
+    # the operations the laws were evaluated on are the ones callers get: no semiring method is replaced on the instance
+    import ast as _ast
+    from ..model import own_nodes as _own, norm as _norm
+    rep.rule('C08-L0', 'the semiring operations are the methods of the class: no method of a Semiring class is rebound on the instance (a per-instance wrapper -- a cache of from_int(0), say -- is a different operation from the one whose AST was evaluated)')
+    base0 = prog.cls('fggs.semirings', 'Semiring')
+    n_m = 0
+    for ci in [base0] + prog.subclasses(base0, strict=True):
+        names = {q for c in prog.mro(ci) for q in c.methods}
+        for m in ci.methods.values():
+            selfn = m.self_name()
+            if selfn is None:
+                continue
+            n_m += 1
+            for x in _own(m.node):
+                hit = None
+                if isinstance(x, _ast.Attribute) and isinstance(x.ctx, _ast.Store) and isinstance(x.value, _ast.Name) and x.value.id == selfn and x.attr in names:
+                    hit = x.attr
+                if isinstance(x, _ast.Call) and isinstance(x.func, _ast.Name) and x.func.id == 'setattr' and len(x.args) == 3 and _norm(x.args[0]) == selfn \
+                        and isinstance(x.args[1], _ast.Constant) and x.args[1].value in names:
+                    hit = x.args[1].value
+                if hit is not None:
+                    rep.ob('C08-L0 methods-not-rebound', m.fq(), f"{selfn}.{hit} = ...", m.loc(x), False,
+                           f"`{hit}` is a semiring operation of {ci.name}; the instance attribute shadows the method, so what callers run is the wrapper, not the method the laws were checked on")
+    rep.ob('C08-L0 methods-not-rebound', base0.fq(), 'no Semiring method is rebound on an instance', f"{base0.module.relpath}:{base0.node.lineno}", True, f"{n_m} methods with a receiver examined")
     # the reductions take torch-style axis numbers (negative = from the end): shape arithmetic with `dim` must allow for that
     from ..rules.negdim import check_dim_slices, positive_control
     rep.rule('C08-L8b', 'axis arithmetic: a slice bound `dim + c` / `dim - c` in a semiring method that takes `dim` is reached only with `dim` made non-negative (for dim = -1, `shape[dim+1:]` is the whole shape); the rule has no instance on today\'s tree and is kept alive by a synthetic positive example')
